@@ -12,6 +12,7 @@ import (
 	"runtime"
 	"strings"
 	"sync"
+	"sync/atomic"
 	"testing"
 	"testing/synctest"
 	"time"
@@ -33,14 +34,14 @@ type carrier struct {
 	id int
 	mu sync.Mutex
 
-	in       chan []byte   // packets for ReadFrom
-	readErr  chan struct{} // closed: ReadFrom fails
-	writeErr bool          // next WriteTo fails
-	writeBlock bool        // WriteTo blocks until the carrier is closed (a write on a dead transport), then fails
-	out      [][]byte
-	closes   int
-	closedCh chan struct{}
-	readers  int // goroutines currently inside ReadFrom
+	in         chan []byte   // packets for ReadFrom
+	readErr    chan struct{} // closed: ReadFrom fails
+	writeErr   bool          // next WriteTo fails
+	writeBlock bool          // WriteTo blocks until the carrier is closed (a write on a dead transport), then fails
+	out        [][]byte
+	closes     int
+	closedCh   chan struct{}
+	readers    int // goroutines currently inside ReadFrom
 }
 
 func newCarrier(id int) *carrier {
@@ -109,18 +110,18 @@ func (c *carrier) SetWriteDeadline(t time.Time) error { return nil }
 // case
 
 type cspec struct {
-	DialDelay int64  `json:"dialdelay"` // ns
-	Up        int    `json:"up"`        // packets written by the user while this carrier is healthy
-	Down      int    `json:"down"`      // packets delivered by the carrier
-	Fail      string `json:"fail"`      // read | write | both | read-while-write-blocked | none / close-while-write-blocked (only for the carrier alive at Close)
-	UpDuringDial int `json:"updial,omitempty"` // packets written while the dial is pending
+	DialDelay    int64  `json:"dialdelay"`        // ns
+	Up           int    `json:"up"`               // packets written by the user while this carrier is healthy
+	Down         int    `json:"down"`             // packets delivered by the carrier
+	Fail         string `json:"fail"`             // read | write | both | read-while-write-blocked | none / close-while-write-blocked (only for the carrier alive at Close)
+	UpDuringDial int    `json:"updial,omitempty"` // packets written while the dial is pending
 }
 
 type rcase struct {
-	Carriers  []cspec `json:"carriers"`
-	DialError bool    `json:"dialerror,omitempty"` // the dial after the last carrier fails
-	CloseTwice bool   `json:"closetwice,omitempty"`
-	CloseDuringDial bool `json:"closeduringdial,omitempty"`
+	Carriers        []cspec `json:"carriers"`
+	DialError       bool    `json:"dialerror,omitempty"` // the dial after the last carrier fails
+	CloseTwice      bool    `json:"closetwice,omitempty"`
+	CloseDuringDial bool    `json:"closeduringdial,omitempty"`
 }
 
 func pkt(kind string, carrier, n int) []byte {
@@ -433,7 +434,23 @@ type qcase struct {
 
 const queueSize = 2048
 
-func runQueue(_ *testing.T, c qcase) error {
+// runQueue: every operation of the queue connection returns at once by design ("without blocking,
+// dropping when a queue is full"); an operation that does not return within 20 s is reported as such
+// (the goroutine stuck in it is abandoned).
+func runQueue(t *testing.T, c qcase) error {
+	var cur atomic.Int64
+	done := make(chan error, 1)
+	go func() { done <- runQueueOps(t, c, &cur) }()
+	select {
+	case err := <-done:
+		return err
+	case <-time.After(20 * time.Second):
+		i := int(cur.Load())
+		return fmt.Errorf("op #%d (%s) blocked: it had not returned after 20 s, although no operation of the queue connection may block (a full queue drops)", i, c.Ops[i].Op)
+	}
+}
+
+func runQueueOps(_ *testing.T, c qcase, cur *atomic.Int64) error {
 	qc := turbotunnel.NewQueuePacketConn(addr("local"), time.Hour)
 	addrs := []net.Addr{addr("A"), addr("B"), turbotunnel.ClientID{1, 2, 3, 4, 5, 6, 7, 8}, turbotunnel.ClientID{}}
 	type tagged struct {
@@ -450,6 +467,7 @@ func runQueue(_ *testing.T, c qcase) error {
 		return []byte(fmt.Sprintf("pkt-%d", seq))
 	}
 	for i, op := range c.Ops {
+		cur.Store(int64(i))
 		a := op.Addr % len(addrs)
 		switch op.Op {
 		case "in":
